@@ -28,3 +28,4 @@ def run(prog, rep):
     _rk2.run_const_pure(prog, rep)
     from ..rules import r_close as _rc2
     _rc2.run_hid_owner(prog, rep)
+    r_codec.run_time_codec(prog, rep)
